@@ -8,6 +8,7 @@ def run(lines, out, args):
     from zope.interface.declarations import Declaration
     nodes = {}
     serial = [0]
+    twins = set()      # ids of nodes that share their (name, module) with another node
 
     def ids(xs):
         inv = {id(v): k for k, v in nodes.items()}
@@ -20,6 +21,7 @@ def run(lines, out, args):
         try:
             if f[0] == "reset":
                 nodes = {0: Interface}
+                twins = set()
                 serial[0] += 1
                 got = "ok"
             elif f[0] == "new":
@@ -33,15 +35,31 @@ def run(lines, out, args):
                         x.__bases__ = B
                 nodes[s] = x
                 got = "ok"
+            elif f[0] == "newtwin":
+                # a distinct interface object with the SAME __name__ and __module__ as node f[2] (what a module reload leaves behind)
+                s = int(f[1])
+                B = tuple(nodes[b] for b in a)
+                nodes[s] = InterfaceClass(nodes[int(f[2])].__name__, B, __module__="zi.gen")
+                twins |= {s, int(f[2])}
+                got = "ok"
             elif f[0] == "set":
                 nodes[int(f[1])].__bases__ = tuple(nodes[b] for b in a)
                 got = "ok"
             elif f[0] == "q":
                 x = nodes[int(f[1])]
                 inv = {id(v): k for k, v in nodes.items()}
-                imp = sorted(k for k, v in nodes.items() if x.isOrExtends(v))
-                ext = sorted(k for k, v in nodes.items() if x.extends(v))
-                ext2 = sorted(k for k, v in nodes.items() if x.extends(v, False))
+                # equal-keyed interfaces are one dictionary key by design (C12): for such twins the question is asked by
+                # identity on the resolution order, for everything else through the public API
+                def isorext(v, k):
+                    return any(v is a for a in x.__sro__) if k in twins else x.isOrExtends(v)
+
+                def ext_(v, k, strict=True):
+                    if k in twins:
+                        return any(v is a for a in x.__sro__) and not (strict and v is x)
+                    return x.extends(v, strict)
+                imp = sorted(k for k, v in nodes.items() if isorext(v, k))
+                ext = sorted(k for k, v in nodes.items() if ext_(v, k))
+                ext2 = sorted(k for k, v in nodes.items() if ext_(v, k, False))
                 # extends(strict) must be isOrExtends minus self; non-strict must equal isOrExtends
                 if ext != [k for k in imp if nodes[k] is not x] or ext2 != imp:
                     imp = imp + ["extends-mismatch"]
